@@ -249,7 +249,7 @@ def sim_acts(ctx, cfgname, num, depth):
                   depth=depth, seed=ctx.seed, kind='simulate')
     if res.violated:
         raise vlib.Infra('simulation of RDMAScen violated %s\n%s' % (res.violated, res.out[-2000:]))
-    ctx.cov['transitions'] += res.generated
+    ctx.cov['simulated_transitions'] = ctx.cov.get('simulated_transitions', 0) + res.generated
     behs = []
     for f in sorted(os.listdir(res.dir)):
         if not f.startswith('beh_'):
@@ -279,6 +279,39 @@ def scenarios(ctx, cfgname, comps, num, depth):
     return out
 
 
+def system_runs(ctx, drv, items, out):
+    """One process per whole-system run (a panic inside the simulator's engine goroutine cannot be recovered by
+    the driver).  The trace is written through line by line; if the process died with a Go panic the fact is
+    appended as a Panic line, which no action of the trace spec explains."""
+    total = {}
+    with open(out, 'w') as f:
+        for i, item in enumerate(items):
+            ti = os.path.join(ctx.scratch, 'trace_sys_%d.ndjson' % i)
+            p, stats = common.run_driver(ctx, drv, ['-sysrun', item, '-out', ti], timeout=600)
+            if stats is None:
+                if 'panic:' not in p.stdout and 'fatal error:' not in p.stdout:
+                    raise vlib.Infra('driver failed (sysrun %s): %s' % (item, p.stdout[-2000:]))
+                lines = [l for l in open(ti).read().splitlines() if l.strip()] if os.path.exists(ti) else []
+                if lines:
+                    try:
+                        json.loads(lines[-1])
+                    except ValueError:
+                        lines = lines[:-1]         # line cut by the crash
+                msg = next((l for l in p.stdout.splitlines() if l.startswith('panic:') or l.startswith('fatal error:')),
+                           'panic')
+                if not lines:
+                    raise vlib.Infra('sysrun %s crashed before logging anything: %s' % (item, p.stdout[-1500:]))
+                lines.append(json.dumps({'e': 'Panic', 'msg': 'simulator process died: ' + msg[:200], 'seq': len(lines) + 1}))
+                f.write('\n'.join(lines) + '\n')
+                total['crashes'] = total.get('crashes', 0) + 1
+                total['traces'] = total.get('traces', 0) + 1
+                continue
+            f.write(open(ti).read())
+            for k, v in stats.items():
+                total[k] = total.get(k, 0) + v
+    return total
+
+
 def drive(ctx, drv, args, what):
     p, stats = common.run_driver(ctx, drv, args)
     if stats is None:
@@ -286,17 +319,16 @@ def drive(ctx, drv, args, what):
     return stats
 
 
-def run_rdma(ctx):
-    thorough = ctx.tier == 'thorough'
-    drv = ctx.go_build('c18')
-
-    # 1. design-level model checking
-    r = ctx.tlc_expect_ok(['rdma'], 'MC_RDMA.tla', 'MC_RDMA.cfg', coverage=True, timeout=900)
+def model_check(ctx, thorough):
+    """1. design-level model checking (runs in a background thread of the quick tier: it needs nothing from the
+    real-code stages; any failure is an infrastructure error raised when the thread is joined)."""
+    r = ctx.tlc_expect_ok(['rdma'], 'MC_RDMA.tla', 'MC_RDMA.cfg', coverage=True, timeout=900,
+                          workers=None if thorough else 6)
     ctx.log('MC_RDMA (2 engines + scripted peer, 2 requests, 1 drain): %d distinct states, depth %d' % (r.distinct, r.depth))
     ctx.cov['coverage_zero_actions'] = r.coverage_zero()
     if ctx.cov['coverage_zero_actions']:
         raise vlib.Infra('vacuous model: actions never taken: %s' % ctx.cov['coverage_zero_actions'])
-    r = ctx.tlc_expect_ok(['rdma'], 'MC_RDMA.tla', 'MC_RDMA_live1.cfg', timeout=1200)
+    r = ctx.tlc_expect_ok(['rdma'], 'MC_RDMA.tla', 'MC_RDMA_live1.cfg', timeout=1200, workers=None if thorough else 4)
     ctx.log('MC_RDMA_live1 (Progress, DrainProgress under fairness; 1 request, 2 drains): %d distinct states' % r.distinct)
     if thorough:
         r = ctx.tlc_expect_ok(['rdma'], 'MC_RDMA.tla', 'MC_RDMA_live.cfg', workers=vlib.NCPU, timeout=3000)
@@ -306,6 +338,26 @@ def run_rdma(ctx):
             ctx.log('%s: %d distinct states, depth %d' % (cfg, r.distinct, r.depth))
         ctx.cov['exhaustive'] = True
 
+
+def run_rdma(ctx):
+    thorough = ctx.tier == 'thorough'
+    drv = ctx.go_build('c18')
+    pool = ThreadPoolExecutor(max_workers=2)
+    if thorough:
+        model_check(ctx, True)
+        mc = None
+    else:
+        mc = pool.submit(model_check, ctx, False)
+    try:
+        real_code(ctx, drv, thorough, pool)
+    finally:
+        if mc is not None:
+            mc.result()          # re-raises vlib.Infra of the model-checking thread
+        pool.shutdown()
+    ctx.cov['transitions'] += ctx.cov.pop('simulated_transitions', 0)
+
+
+def real_code(ctx, drv, thorough, pool):
     # 2. spec -> code: TLC behaviours as environment scenarios on real engines
     n2, n1 = (300, 120) if thorough else (45, 20)
     scen = scenarios(ctx, 'RDMAScen.cfg', [1, 2], n2, 90) + scenarios(ctx, 'RDMAScen1.cfg', [2], n1, 70)
@@ -338,35 +390,54 @@ def run_rdma(ctx):
     ctx.log('engines of the real platforms (%s): %s' % (plats, stats3))
     if stats3.get('steps_skipped') and not stats3.get('panics'):
         ctx.notes.append('platform probe: %d scripted steps did not apply' % stats3['steps_skipped'])
-    # 3c. listen on the RDMA ports of real multi-GPU timing runs of shipped workloads (real engine, real caches,
-    #     real PCIe network: every environment event of the trace is produced by real components)
-    if thorough:
-        sysl = ('vectoradd:r9nano:2:64,vectoradd:r9nano:4:64,matrixtranspose:r9nano:2:64,matrixtranspose:r9nano:4:64,'
-                'fir:r9nano:2:1024,fir:r9nano:4:2048,vectoradd:mi300a:2:64,fir:mi300a:2:1024')
-    else:
-        sysl = 'vectoradd:r9nano:2:16,fir:r9nano:2:1024'
-    t4 = os.path.join(ctx.scratch, 'trace_sys.ndjson')
-    args4 = ['-sysrun', sysl, '-out', t4]
-    stats4 = drive(ctx, drv, args4, 'sysrun')
-    ctx.log('RDMA ports of real multi-GPU timing runs (%s): %s' % (sysl, stats4))
-    ctx.cov['system_runs_listened_to'] = sysl.split(',')
-    stats2 = {k: stats2.get(k, 0) + stats4.get(k, 0) for k in set(stats2) | set(stats4)}
-
-    # one TLC start validates all recorded traces (concatenated; every trace starts with its Reset line)
+    # one TLC start validates all traces recorded so far (concatenated; every trace starts with its Reset line)
     tall = os.path.join(ctx.scratch, 'trace_all.ndjson')
     with open(tall, 'w') as f:
-        for t in (t1, t2, t3, t4):
+        for t in (t1, t2, t3):
             f.write(open(t).read())
     n_ok = common.validate_and_triage(ctx, TSPEC, tall, {'cmd': 'c18', 'runs': [{'scenarios': scen}, {'args': args[:-1]},
-                                                                               {'args': args3[:-1]}, {'args': args4[:-1]}]})
+                                                                               {'args': args3[:-1]}]})
     ctx.log('trace validation: %d traces accepted' % n_ok)
-    ctx.cov['platform_configurations'] = plats.split(',')
-    stats2 = {k: stats2.get(k, 0) + stats3.get(k, 0) for k in set(stats2) | set(stats3)}
+
+    # 3c. listen on the RDMA ports of real multi-GPU timing runs of shipped workloads (real engine, real caches,
+    #     real PCIe network: every environment event of the trace is produced by real components).  Only when the
+    #     engines passed so far: a broken engine makes whole-system runs hang or crash.
+    # 4.  binding self-test: corrupted copies of accepted traces must be rejected (concurrently with 3c)
+    t4 = os.path.join(ctx.scratch, 'trace_sys.ndjson')
+    open(t4, 'w').close()
+    if not ctx.violations:
+        if thorough:
+            sysl = ['vectoradd:r9nano:2:64', 'vectoradd:r9nano:4:64', 'matrixtranspose:r9nano:2:64',
+                    'matrixtranspose:r9nano:4:64', 'fir:r9nano:2:1024', 'fir:r9nano:4:2048', 'vectoradd:mi300a:2:64',
+                    'fir:mi300a:2:1024']
+        else:
+            sysl = ['vectoradd:r9nano:2:16', 'fir:r9nano:2:1024']
+
+        def listen():
+            st = system_runs(ctx, drv, sysl, t4)
+            ctx.log('RDMA ports of real multi-GPU timing runs %s: %s' % (sysl, st))
+            n = common.validate_and_triage(ctx, TSPEC, t4, {'cmd': 'c18', 'sysruns': sysl})
+            ctx.log('trace validation: %d whole-system traces accepted' % n)
+            return st
+
+        fut = pool.submit(listen)
+        try:
+            res = selftest(ctx, TSPEC, vlib.split_traces(t2), corruptions(),
+                           required={'misroute_forwarded_request', 'swap_reply_targets', 'drop_reply', 'duplicate_reply',
+                                     'corrupt_returned_data', 'corrupt_forwarded_address', 'early_drain_ack'})
+            ctx.log('binding self-test: %d corruptions rejected' % len(res))
+        finally:
+            stats4 = fut.result()
+        ctx.cov['system_runs_listened_to'] = sysl
+        stats2 = {k: stats2.get(k, 0) + stats4.get(k, 0) for k in set(stats2) | set(stats4)}
+        if stats4.get('hangs') and not ctx.violations:
+            raise vlib.Infra('a whole-system run hung (engine idle, workload outstanding) although its RDMA trace is '
+                             'complete: not attributable to the RDMA engines')
 
     parts = vlib.split_traces(t1) + vlib.split_traces(t2) + vlib.split_traces(t3) + vlib.split_traces(t4)
     distinct = {json.dumps([{k: v for k, v in r.items() if k != 'seq'} for r in recs], sort_keys=True) for _, recs in parts}
     nt = sum(1 for _, recs in parts if nontrivial(recs))
-    ctx.sample({'trace_excerpt': [{k: v for k, v in r.items() if k != 'seq'} for r in parts[-1][1][:8]]})
+    ctx.sample({'trace_excerpt': [{k: v for k, v in r.items() if k != 'seq'} for r in vlib.split_traces(t2)[-1][1][:8]]})
     ncomp = {}
     for _, recs in parts:
         n = len(recs[0].get('comps', []))
@@ -376,13 +447,6 @@ def run_rdma(ctx):
                     'requests_routed': stats.get('roots', 0) + stats2.get('roots', 0),
                     'traces_by_number_of_real_engines': ncomp,
                     'invariants_checked_on_every_trace_state': INVS})
-
-    # 4. binding self-test: corrupted copies of accepted traces must be rejected
-    if not ctx.violations:
-        res = selftest(ctx, TSPEC, vlib.split_traces(t2), corruptions(),
-                       required={'misroute_forwarded_request', 'swap_reply_targets', 'drop_reply', 'duplicate_reply',
-                                 'corrupt_returned_data', 'corrupt_forwarded_address', 'early_drain_ack'})
-        ctx.log('binding self-test: %d corruptions rejected' % len(res))
     ctx.assumptions += [
         'akitabench mini engine and fake connection stand in for akita SerialEngine and the PCIe/direct connections; '
         'the network between engines is a bag (any delay, any order), which is weaker than any FIFO connection',
@@ -406,6 +470,12 @@ def replay(ctx, path):
     if d.get('cmd') != 'c18' and run_system is not None and 'replay_system' in globals():
         return globals()['replay_system'](ctx, path)
     drv = ctx.go_build('c18')
+    if 'sysruns' in d:
+        t = os.path.join(ctx.scratch, 'replay.ndjson')
+        system_runs(ctx, drv, d['sysruns'], t)
+        before = len(ctx.violations)
+        common.validate_and_triage(ctx, TSPEC, t, d)
+        return 1 if len(ctx.violations) > before else 0
     runs = d.get('runs', [d])
     t = os.path.join(ctx.scratch, 'replay.ndjson')
     with open(t, 'w') as f:
